@@ -193,7 +193,22 @@ def classify(src, feats):
         return "fstring_flag_after_empty_triple"
     if feats and feats["fprefix_other"]:
         return "fstring_prefix_not_lowercase_f"
+    if name_glued_to_quote(src):
+        return "name_ending_in_f_taken_as_fstring_prefix"
     return "literal_char_left"
+
+
+def name_glued_to_quote(src):
+    """a NAME token ending in f / fr (if, elif, self.f ...) directly followed by a string literal"""
+    try:
+        toks = list(tokenize.generate_tokens(io.StringIO(src).readline))
+    except Exception:
+        return False
+    for a, b in zip(toks, toks[1:]):
+        if a.type == tokenize.NAME and b.type in (tokenize.STRING, tokenize.FSTRING_START) and a.end == b.start \
+                and re.search(r"[fF][rR]?$", a.string):
+            return True
+    return False
 
 
 # ---------------------------------------------------------------- generators
@@ -325,6 +340,7 @@ def gen_program(rng, fstrings=True, other_prefix_p=0.25, risky_p=0.08):
 
 
 FIXED_CASES = [
+    "x = a if'{' in s else b\n", "x = 1 if'a{b' else 2\n", "y = 0 if'}' in t else 1 # '{'\n", "z = [q for q in s if\"{\" in q]\n",
     "", "abc", " '' ", " '''''''''''' ", '"x"', """ '"' "'" """, """ '''' ''' """, r"'a\'b'", r"'a\\'", r"'a\\\'b'",
     "u'abc'", r"ru'abc\\'", "abc # foo", "abc # 'x'", "'abc#'", "include 'a.pxi' # something here",
     """ func('xyz') + " " + "" '' # '' | "" "123" 'xyz' "' """, " f'f' ", " f'a{123}b' ", " f'{1}{f'xyz'}' ",
